@@ -41,6 +41,10 @@
 (*   ReadTimeoutArmsWrite - on a listener with a read timeout (rt=) the    *)
 (*                     deadline of the last read also ends later WRITES    *)
 (*                     of the reply to the client                          *)
+(*   StaleTargetOptions - a service has several instances whose options    *)
+(*                     differ (pxyproto); the dial to the first is refused *)
+(*                     and the next instance gets (or misses) the PROXY    *)
+(*                     line according to the options of the failed one     *)
 (* The design: a failed direction only ends itself; what the other side    *)
 (* sent before it finished cleanly still reaches its peer.                 *)
 (*                                                                         *)
@@ -58,6 +62,7 @@ CONSTANTS
     DropDataWithEOF,   \* deviation (defect class): data returned together with EOF is dropped
     AbortOnError,      \* deviation (defect class): first failed direction ends the tunnel
     ResetOnError,      \* deviation (defect class): connections are reset when the tunnel ended with an error
+    StaleTargetOptions,   \* deviation (defect class): after a refused dial the next instance is dialled with the failed one's options
     ReadTimeoutArmsWrite, \* deviation (defect class): the listener's read timeout also expires writes to the client
     PeekN              \* bytes the SNI path peeks before it knows the hello length
 
@@ -232,9 +237,22 @@ ReadHello == /\ ppc = "hello"
                      ELSE CanFill /\ Fill /\ UNCHANGED <<ppc, hbuf>>
              /\ UNCHANGED <<sc, cli, ups, p2u, u2p, p2c, cpCU, cpUC, inW, outW, firstFin>>
 
-AfterDial == IF sc.proxy = 1 THEN "hdr" ELSE IF sc.kind = "sni" THEN "replay"
+\* A service may have several instances (targets), each with its own options.  sc.dead = 1: the dial to
+\* the instance picked first is refused; its pxyproto option is sc.deadpp, that of the instance which
+\* is alive is sc.proxy.  The statement does not say whether the proxy tries another instance: it may
+\* give the connection up (nothing was tunnelled) or dial the next one - whose OWN options then apply.
+HdrOn == IF StaleTargetOptions /\ sc.dead = 1 THEN sc.deadpp ELSE sc.proxy
+AfterDial == IF HdrOn = 1 THEN "hdr" ELSE IF sc.kind = "sni" THEN "replay"
              ELSE IF sc.kind = "ws" THEN "ws101" ELSE "copy"
-Dial == /\ ppc = "dial"
+DialRefused == /\ ppc = "dial" /\ sc.dead = 1
+               /\ \/ /\ ppc' = "dial2"                       \* try the next instance
+                     /\ UNCHANGED <<p2c, c2p, inW, outW>>
+                  \/ /\ ppc' = "done"                        \* give up: the client's connection is closed
+                     /\ p2c' = IF CAlive THEN Append(p2c, EOFm) ELSE p2c
+                     /\ c2p' = <<>>
+                     /\ inW' = TRUE /\ outW' = TRUE
+               /\ UNCHANGED <<sc, cli, ups, p2u, u2p, bio, hbuf, cpCU, cpUC, firstFin>>
+Dial == /\ (ppc = "dial" /\ sc.dead = 0) \/ ppc = "dial2"
         /\ uConn' = TRUE
         /\ ppc' = AfterDial
         /\ UNCHANGED <<sc, cli, uIdx, uState, uRecv, uGotEOF, bufs, bio, hbuf, cpCU, cpUC, inW, outW, firstFin>>
@@ -348,11 +366,11 @@ Finish == /\ ppc = "copy"
           /\ UNCHANGED <<sc, cli, ups, bio, hbuf, cpCU, cpUC, firstFin>>
 
 -----------------------------------------------------------------------------
-Terminated == ppc = "done" /\ ~CAlive /\ uState = "closed"
+Terminated == ppc = "done" /\ ~CAlive /\ (uState = "closed" \/ ~uConn)
 
 Next == \/ CWrite \/ CFin \/ CRead \/ CCloseAfterEOF \/ CAbort
         \/ UWrite \/ UFin \/ URead \/ UCloseAfterEOF
-        \/ Peek \/ ReadHello \/ Dial \/ ProxyHdr \/ ReplayHello \/ Ws101
+        \/ Peek \/ ReadHello \/ Dial \/ DialRefused \/ ProxyHdr \/ ReplayHello \/ Ws101
         \/ CURead \/ CUWrite \/ CUEof \/ CUTimeout \/ UCRead \/ UCWrite \/ UCEof \/ Finish
         \/ (Terminated /\ UNCHANGED vars)          \* so that TLC's deadlock check means "stuck before the end"
 
@@ -365,12 +383,13 @@ PrefixInv == IsPrefix(uRecv, ExpU) /\ IsPrefix(cRecv, ExpC)
 \* "whichever side finishes first has had all of its data delivered"
 \* (a read timeout that ended the client -> upstream direction is the configuration at work, not a loss)
 TimedOut == sc.rt = 1 /\ cpCU.pc = "failed"
-FirstFinisherDelivered == Terminated => /\ (firstFin = "c" /\ ~TimedOut => uRecv = ExpU)
+\* (all clauses speak about a connection that was tunnelled: uConn)
+FirstFinisherDelivered == (Terminated /\ uConn) => /\ (firstFin = "c" /\ ~TimedOut => uRecv = ExpU)
                                         /\ (firstFin = "u" => cRecv = ExpC)
 \* "a client that half-closes after sending still receives the reply"
-HalfCloseGetsReply == (sc.cmode = "half" /\ cGotEOF) => cRecv = ExpC
+HalfCloseGetsReply == (sc.cmode = "half" /\ cGotEOF /\ uConn) => cRecv = ExpC
 \* "every byte one side sends is delivered to the other side": on the scenarios a direct
 \* connection carries completely, so does the tunnel
-Transparent == Terminated => /\ (~TimedOut => uRecv = ExpU)
+Transparent == (Terminated /\ uConn) => /\ (~TimedOut => uRecv = ExpU)
                              /\ (sc.cmode \notin {"close", "abort"} => cRecv = ExpC)
 =============================================================================
